@@ -199,8 +199,7 @@ func VerifC20Matcher() {
 	}
 	if w := lib.VerifParam("window", 0); w == 2 {
 		// the month is enumerated, the instant inside it is symbolic: this keeps the calendar
-		// arithmetic of package time nearly branch-free. Months 0..95 are 2023-01 .. 2030-12 (two leap
-		// years); 96..99 are 2000-02 (leap century), 2100-02 (non-leap century), 2038-01, 1999-12.
+		// arithmetic of package time nearly branch-free.
 		months := lib.VerifParam("months", 48)
 		blocks := lib.VerifParam("blocks", 1)
 		per := (months + blocks - 1) / blocks
@@ -211,15 +210,17 @@ func VerifC20Matcher() {
 		}
 		ym := blk*per + lib.VerifPick("yearmonth", per)
 		lib.VerifAssume(ym < months)
-		y, m := 2023+ym/12, 1+ym%12
+		// months 0..3 are 2000-02 (leap century), 2100-02 (non-leap century), 2038-01, 1999-12;
+		// month k >= 4 is the (k-4)-th month from 2023-01 on
+		y, m := 2023+(ym-4)/12, 1+(ym-4)%12
 		switch ym {
-		case 96:
+		case 0:
 			y, m = 2000, 2
-		case 97:
+		case 1:
 			y, m = 2100, 2
-		case 98:
+		case 2:
 			y, m = 2038, 1
-		case 99:
+		case 3:
 			y, m = 1999, 12
 		}
 		// the enumerated month is the civil month in the job's zone
